@@ -19,7 +19,7 @@ LEVEL = 'exploration'
 RULE = ('case = key shape (generated from the seed) or a concatenation of shapes; one evaluation per export/import pass compared; non-trivial = shape with at '
         'least two components carrying signatures, or a non-exportable signature, or equal creation times; distinct = distinct shape descriptors')
 ASSUMPTIONS = ['vf.ref.grammar transferable-key parser (11.1/11.2)', 'signature validity per vf.ref.sig']
-MIN_COUNTERS = {'quick': {'shapes': 100, 'passes_compared': 500, 'signatures_reverified': 1500, 'nonexportable_seen': 20, 'concatenations': 20, 'copies': 120, 'foreign_encoded_keys': 15, 'generated_keys': 10},
+MIN_COUNTERS = {'quick': {'shapes': 100, 'passes_compared': 500, 'signatures_reverified': 1500, 'nonexportable_seen': 20, 'concatenations': 20, 'copies': 120, 'foreign_encoded_keys': 15, 'generated_keys': 10, 'mixed_concatenations': 6},
                 'thorough': {'shapes': 1500}}
 BUDGET = {'quick': (600, 1500), 'thorough': (1800, 3600)}
 TECHNIQUE = 'runtime monitoring: differential reference-model monitor (independent transferable-key parser + verifier) over generated key shapes'
@@ -211,8 +211,18 @@ def _concat(ctx, d, pgpy):
             continue
         used.add(shape['primary'])
         keys.append(keyshape.build(shape)[0])
-    public = r.random() < 0.5
-    objs = [k.pubkey if public else k for k in keys]
+    mode = r.choice(['public', 'private', 'mixed', 'mixed'])
+    public = mode == 'public'
+    if mode == 'mixed':
+        # public and private keys in one blob (a keyring dump), in any order, and both halves of one key somewhere in it
+        objs = [k.pubkey if r.random() < 0.5 else k for k in keys]
+        j = r.randrange(len(keys))
+        twin = keys[j] if objs[j].is_public else keys[j].pubkey
+        objs.insert(r.randrange(j + 1, len(objs) + 1) if r.random() < 0.7 else r.randrange(0, j + 1), twin)
+        n = len(objs)
+        ctx.count('mixed_concatenations')
+    else:
+        objs = [k.pubkey if public else k for k in keys]
     blobs = [bytes(o) for o in objs]
     cat = b''.join(blobs)
     ctx.count('concatenations')
@@ -227,9 +237,9 @@ def _concat(ctx, d, pgpy):
         if len(got) != n:
             ctx.fail('concatenated-keys-mis-split', {'n': n, 'form': form, 'got': len(got)})
             continue
-        gm = {str(g.fingerprint): g for g in got}
+        gm = {(str(g.fingerprint), g.is_public): g for g in got}
         for o, b in zip(objs, blobs):
-            g = gm.get(str(o.fingerprint))
+            g = gm.get((str(o.fingerprint), o.is_public))
             if g is None:
                 ctx.fail('concatenated-key-missing', {'n': n, 'form': form})
                 continue
